@@ -37,7 +37,10 @@ Shapes == {"unit_struct", "tuple0", "tuple1", "tuple1_unit", "tuple2", "named0",
            "unit_where", "tuple0_where", "named0_where", "enum_empty_where",
            \* enums with EXPLICIT DISCRIMINANTS of every spelling rustc accepts for the repr: literals at and beyond the
            \* ends of isize / i64 / u64 (decimal, hex with separators, suffixed), casts, shifts, blocks, char literals
-           "enum_disc64", "enum_disc128", "enum_disc_exprs"}
+           "enum_disc64", "enum_disc128", "enum_disc_exprs",
+           \* unit items whose NAMES are unusual: non-ASCII first letters (1 char = 2..4 bytes), underscores only, one
+           \* character, a raw identifier, digits after the first character
+           "enum_odd_names", "struct_odd_name", "struct_underscores"}
 \* "field_pair": the first AND the second field carry an attribute each (two bodies): the derives that read all
 \* fields' attributes together (which marks may be mixed) have code only this reaches
 Positions == {"none", "item", "variant", "field", "field_pair"}
@@ -57,16 +60,18 @@ Bodies == {"bare", "empty_parens", "ident", "two_idents", "unknown_ident", "int_
            \* parameters that are paths, not single identifiers: several segments, a leading `::`, a call on a path
            "path_global", "path_call", "path_generic",
            \* the legacy `types(..)` list inside each of the reference-kind wrappers
-           "legacy_in_owned", "legacy_in_ref", "legacy_in_ref_mut"}
+           "legacy_in_owned", "legacy_in_ref", "legacy_in_ref_mut",
+           \* `rename_all = "<casing>"` for each of the eight casings (the Display-like derives convert the item's / variant's name)
+           "rename_lower", "rename_upper", "rename_pascal", "rename_camel", "rename_snake", "rename_scream", "rename_kebab", "rename_screamkebab"}
 
 \* a position only exists on shapes that have it
 HasPosition(shape, pos) ==
     CASE pos = "none" -> TRUE
       [] pos = "item" -> TRUE
       [] pos = "variant" -> shape \in {"enum_unit", "enum_tuple", "enum_named", "enum_mixed", "generic_enum", "raw_names", "raw_unit_enum",
-                                           "enum_disc64", "enum_disc128", "enum_disc_exprs"}
+                                           "enum_disc64", "enum_disc128", "enum_disc_exprs", "enum_odd_names"}
       [] pos = "field" -> shape \notin {"unit_struct", "tuple0", "named0", "enum_empty", "enum_unit", "raw_unit_enum",
                                           "unit_where", "tuple0_where", "named0_where", "enum_empty_where",
-                                          "enum_disc64", "enum_disc128", "enum_disc_exprs"}
+                                          "enum_disc64", "enum_disc128", "enum_disc_exprs", "enum_odd_names", "struct_odd_name", "struct_underscores"}
       [] pos = "field_pair" -> shape \in {"tuple2", "named2", "enum_mixed", "raw_struct", "union", "array_const"}
 =============================================================================
